@@ -318,6 +318,8 @@ Clause(f, o) ==
   ELSE IF p.kind = "E" /\ o.k # 0 /\ f.k = 0 THEN "U-evex-mask-not-allowed-by-row"
   ELSE IF p.kind = "E" /\ o.k = 0 /\ (\E j \in memJ : FO(j).vsib # "") THEN "U-evex-gather-scatter-needs-a-mask"
   ELSE IF p.kind = "E" /\ p.bb # (IF erOn \/ saeOn \/ bcOn THEN 1 ELSE 0) THEN "evex-b"
+  ELSE IF p.kind = "E" /\ (erOn \/ saeOn) /\ f.l \in {0, 1} THEN "U-er-sae-on-a-128-or-256-bit-form"          \* b=1 implies 512-bit: no such instruction (C13)
+  ELSE IF p.kind = "E" /\ saeOn /\ ~erOn /\ f.er = 1 THEN "U-sae-alone-on-a-rounding-capable-form"     \* L'L is the rounding mode there (C13)
   ELSE IF p.kind = "E" /\ erOn /\ (f.er = 0 \/ p.mod # 3 \/ p.LL # o.er) THEN "evex-rounding"
   ELSE IF p.kind = "E" /\ saeOn /\ ~erOn /\ (f.sae = 0 \/ p.mod # 3) THEN "evex-sae"
   \* options
@@ -331,7 +333,8 @@ ClauseOrder == <<"length", "longer-than-15", "prefix-kind", "duplicate-prefix", 
                  "w-bit", "vector-length", "legacy-prefix-before-vex", "prefix-66", "prefix-F2", "prefix-F3", "U-rep-prefix-not-allowed-by-row",
                  "U-hle-prefix-not-allowed-by-row", "prefix-lock", "lock-needs-lockable-memory-destination", "prefix-9B", "prefix-67", "segment-prefix",
                  "modrm-digit", "modrm-rm-fixed", "modrm-mod", "unused-R", "unused-XB", "unused-vvvv", "decoration-without-evex", "evex-aaa", "evex-z",
-                 "U-evex-z-not-allowed-by-row", "U-evex-mask-not-allowed-by-row", "U-evex-gather-scatter-needs-a-mask", "evex-b", "evex-rounding",
+                 "U-evex-z-not-allowed-by-row", "U-evex-mask-not-allowed-by-row", "U-evex-gather-scatter-needs-a-mask", "evex-b", "U-er-sae-on-a-128-or-256-bit-form",
+                 "U-sae-alone-on-a-rounding-capable-form", "evex-rounding",
                  "evex-sae", "option-vex3", "option-rex">>
 ClauseRank(c) == IF c = "" THEN 100
                  ELSE IF \E j \in 1..Len(ClauseOrder) : ClauseOrder[j] = c THEN CHOOSE j \in 1..Len(ClauseOrder) : ClauseOrder[j] = c
@@ -369,7 +372,8 @@ Verdict(o0) ==
   ELSE LET fit == Fitting(o)
            okf == {k \in fit : Forms[k].ok}
            UC  == {"U-evex-z-not-allowed-by-row", "U-evex-mask-not-allowed-by-row", "U-rep-prefix-not-allowed-by-row",
-                   "U-hle-prefix-not-allowed-by-row", "U-evex-gather-scatter-needs-a-mask"}
+                   "U-hle-prefix-not-allowed-by-row", "U-evex-gather-scatter-needs-a-mask", "U-er-sae-on-a-128-or-256-bit-form",
+                   "U-sae-alone-on-a-rounding-capable-form"}
        IN IF \E k \in okf : Clause(Forms[k], o) = "" /\ OptionsOk(k, o, fit) THEN <<"ok", "", 0>>
           ELSE IF fit = {} THEN <<"U", "operand-signature-not-in-database", 0>>
           ELSE IF fit # okf THEN <<"U", "row-kind-not-modelled", 0>>
